@@ -145,6 +145,10 @@ func genLine(t *simrt.Tape) string {
 func genCorpus(t *simrt.Tape, maxLines int) []byte {
 	n := t.WRange(0, maxLines)
 	var b bytes.Buffer
+	if t.WBool(1, 14) {
+		// an input of one to three bytes (shorter than anything a content sniffer wants to look at)
+		return []byte([]string{"A", "\n", "a\n", "ab", "\r\n", "x\ny", "\x1f", "\x1f\x8b"}[t.W(8)])
+	}
 	if n > 0 && t.WBool(1, 16) {
 		// a plain file that begins with the gzip magic bytes (under -z it must still be read from its first byte)
 		b.WriteString("\x1f\x8b\x07 ") // (compression method 7 is not a gzip header: gzip.ErrHeader, read as plain)
